@@ -81,12 +81,12 @@ class Highlighter(object):
         buffer = ""
         current_type = None
         source_io = io.BytesIO(encode(source))
-        formatter = PlainFormatter()
 
-        def readline():
-            return encode(formatter.remove_format(decode(source_io.readline())))
+        def escape(text):
+            # Source code is text, not markup: keep its "<" characters literal
+            return text.replace("<", "\\<")
 
-        tokens = tokenize.tokenize(readline)
+        tokens = tokenize.tokenize(source_io.readline)
         line = ""
         for token_info in tokens:
             token_type, token_string, start, end, _ = token_info
@@ -98,7 +98,9 @@ class Highlighter(object):
             if token_type == tokenize.ENDMARKER:
                 # End of source
                 if current_type is not None:
-                    line += "<{}>{}</>".format(self._theme[current_type], buffer)
+                    line += "<{}>{}</>".format(
+                        self._theme[current_type], escape(buffer)
+                    )
 
                 lines.append(line)
                 break
@@ -109,7 +111,7 @@ class Highlighter(object):
                     lines += [""] * (diff - 1)
 
                 line += "<{}>{}</>".format(
-                    self._theme[current_type], buffer.rstrip("\n")
+                    self._theme[current_type], escape(buffer.rstrip("\n"))
                 )
 
                 # New line
@@ -143,7 +145,7 @@ class Highlighter(object):
                 buffer += token_info.line[current_col : start[1]]
 
             if current_type != new_type:
-                line += "<{}>{}</>".format(self._theme[current_type], buffer)
+                line += "<{}>{}</>".format(self._theme[current_type], escape(buffer))
                 buffer = ""
                 current_type = new_type
 
@@ -153,7 +155,9 @@ class Highlighter(object):
                 token_lines = token_string.split("\n")
                 for token_line in token_lines[1:-1]:
                     lines.append(
-                        "<{}>{}</>".format(self._theme[current_type], token_line)
+                        "<{}>{}</>".format(
+                            self._theme[current_type], escape(token_line)
+                        )
                     )
 
                 current_line = end[0]
